@@ -182,17 +182,41 @@ func runC14(c *Ctx) {
 			}
 		}
 		hp := p.Fn("eio", "serverSocket.handlePacket")
-		op := CallsTo(Calls(hp), `\(\*eio\.serverSocket\)\.onPong`)
-		c.Ob("C14-D2", "eio.serverSocket.handlePacket/pong→onPong", hp.Pos(), len(op) == 1 && (HasGuard(op[0].Instr, `\(packet\.Type == 3\)==true`)) && len(GuardTerms(op[0].Instr)) == 1, "a PONG (type 3) packet must call onPong, under no further condition")
-		whoMayCall(c, "C14-D2", `\(\*eio\.serverSocket\)\.onPong`, []string{"(*eio.serverSocket).handlePacket"}, true)
-		on := p.Fn("eio", "serverSocket.onPong")
-		sig := false
-		for _, st := range SelectStates(on) {
+		// a PONG signals pongChan — directly in handlePacket or through the onPong helper (either shape is fine)
+		var sigSites []ssa.Instruction // instructions of handlePacket under which the signal happens
+		for _, st := range SelectStates(hp) {
 			if st.Send && st.Chan == "s.pongChan" {
-				sig = true
+				sigSites = append(sigSites, st.Sel)
 			}
 		}
-		c.Ob("C14-D2", "eio.serverSocket.onPong/signals", on.Pos(), sig, "onPong must signal pongChan")
+		if on := p.FnOpt("eio", "serverSocket.onPong"); on != nil {
+			sig := false
+			for _, st := range SelectStates(on) {
+				if st.Send && st.Chan == "s.pongChan" {
+					sig = true
+				}
+			}
+			c.Ob("C14-D2", "eio.serverSocket.onPong/signals", on.Pos(), sig, "onPong must signal pongChan")
+			whoMayCall(c, "C14-D2", `\(\*eio\.serverSocket\)\.onPong`, []string{"(*eio.serverSocket).handlePacket"}, true)
+			if sig {
+				for _, cs := range CallsTo(Calls(hp), `\(\*eio\.serverSocket\)\.onPong`) {
+					sigSites = append(sigSites, cs.Instr)
+				}
+			}
+		}
+		okPong := len(sigSites) == 1 && HasGuard(sigSites[0], `\(packet\.Type == 3\)==true`) && len(GuardTerms(sigSites[0])) == 1
+		c.Ob("C14-D2", "eio.serverSocket.handlePacket/pong→onPong", hp.Pos(), okPong, fmt.Sprintf("a PONG (type 3) packet must signal pongChan (directly or through onPong), under no further condition, at exactly one place; found %d signal sites", len(sigSites)))
+		// nobody else signals pongChan (a stale pong hides a dead peer for one more interval)
+		pcf := p.Field("eio", "serverSocket", "pongChan")
+		for _, f := range pkgFuncs(p, map[string]bool{"eio": true}) {
+			for _, st := range SelectStates(f) {
+				if st.Send && strings.HasSuffix(st.Chan, ".pongChan") {
+					top := FuncName(ownerOf(EnclosingTop(f)))
+					c.Ob("C14-D2", "eio.serverSocket.pongChan/signalled-only-for-PONG@"+FuncName(f), st.Sel.Pos(), top == "(*eio.serverSocket).handlePacket" || top == "(*eio.serverSocket).onPong", "pongChan is signalled from "+FuncName(f)+": only a received PONG may signal it")
+				}
+			}
+		}
+		_ = pcf
 		// every received packet reaches handlePacket
 		opk := p.Fn("eio", "serverSocket.onPacket")
 		h := CallsTo(Calls(opk), `\(\*eio\.serverSocket\)\.handlePacket`)
